@@ -190,9 +190,8 @@ def lnsStepOrig (val : Nat → Rat) (coin : Nat → Bool) (acc : Accept) (maxNoI
   let k := s.core.evals
   let v := val k
   if acc.says s.cur v (coin k) then
-    let improved := decide (v < s.core.best)
-    let bestIter := if improved then iteration else s.bestIter
-    ⟨if improved then s.core.take v else s.core.skip, v, k, bestIter, iteration,
+    let bestIter := if v < s.core.best then iteration else s.bestIter
+    ⟨if v < s.core.best then s.core.take v else s.core.skip, v, k, bestIter, iteration,
       loopDone iteration bestIter maxNoImprove stopAt⟩
   else
     ⟨s.core.skip, s.cur, s.curIdx, s.bestIter, iteration,
@@ -207,9 +206,8 @@ def lnsStep (val : Nat → Rat) (coin : Nat → Bool) (acc : Accept) (maxNoImpro
   let k := s.core.evals
   let v := val k
   let a := acc.says s.cur v (coin k)
-  let improved := decide (v < s.core.best)
-  let bestIter := if improved then iteration else s.bestIter
-  ⟨if improved then s.core.take v else s.core.skip,
+  let bestIter := if v < s.core.best then iteration else s.bestIter
+  ⟨if v < s.core.best then s.core.take v else s.core.skip,
     if a then v else s.cur, if a then k else s.curIdx, bestIter, iteration,
     loopDone iteration bestIter maxNoImprove stopAt⟩
 
@@ -373,6 +371,26 @@ def nmInit (val : Nat → Rat) (n : Nat) : NmSt := ⟨evalMany val 0 (n + 1), n 
 def nmShrink (val : Nat → Rat) (sorted : List Ind) (e : Nat) : List Ind :=
   sorted.take 1 ++ evalMany val e (sorted.length - 1)
 
+/-- Reflection / expansion / contraction / shrink on the sorted simplex; returns the new simplex
+and the new evaluation count. -/
+def nmBody (val : Nat → Rat) (n : Nat) (sorted : List Ind) (e : Nat) : List Ind × Nat :=
+  let bestV := (sorted.headD default).fit
+  let worstV := (sorted.getD n default).fit
+  let secondV := (sorted.getD (n - 1) default).fit
+  let r := val e
+  if bestV ≤ r ∧ r < secondV then (setLast sorted ⟨r, e⟩, e + 1)
+  else if r < bestV then
+    let x := val (e + 1)
+    if x < r then (setLast sorted ⟨x, e + 1⟩, e + 2) else (setLast sorted ⟨r, e⟩, e + 2)
+  else if r < worstV then
+    let c := val (e + 1)
+    if c ≤ r then (setLast sorted ⟨c, e + 1⟩, e + 2)
+    else (nmShrink val sorted (e + 2), e + 2 + n)
+  else
+    let c := val (e + 1)
+    if c < worstV then (setLast sorted ⟨c, e + 1⟩, e + 2)
+    else (nmShrink val sorted (e + 2), e + 2 + n)
+
 /-- One loop body of `nelder_mead` for dimension `n ≥ 1`. -/
 def nmStep (val : Nat → Rat) (n : Nat) (tol : Rat) (stopAt : Nat) (s : NmSt) : NmSt :=
   if s.done then s else
@@ -380,27 +398,12 @@ def nmStep (val : Nat → Rat) (n : Nat) (tol : Rat) (stopAt : Nat) (s : NmSt) :
   let sorted := sortStable s.simplex
   let bestV := (sorted.headD default).fit
   let worstV := (sorted.getD n default).fit
-  let secondV := (sorted.getD (n - 1) default).fit
   if ratAbs (worstV - bestV) < tol then
     { s with simplex := sorted, iteration := iteration, done := true }
   else
-    let e := s.evals
-    let r := val e
-    let (simplex, e') :=
-      if bestV ≤ r ∧ r < secondV then (setLast sorted ⟨r, e⟩, e + 1)
-      else if r < bestV then
-        let x := val (e + 1)
-        if x < r then (setLast sorted ⟨x, e + 1⟩, e + 2) else (setLast sorted ⟨r, e⟩, e + 2)
-      else if r < worstV then
-        let c := val (e + 1)
-        if c ≤ r then (setLast sorted ⟨c, e + 1⟩, e + 2)
-        else (nmShrink val sorted (e + 2), e + 2 + n)
-      else
-        let c := val (e + 1)
-        if c < worstV then (setLast sorted ⟨c, e + 1⟩, e + 2)
-        else (nmShrink val sorted (e + 2), e + 2 + n)
+    let p := nmBody val n sorted s.evals
     let stop := stopAt != 0 && iteration == stopAt
-    ⟨simplex, e', iteration, stop, stop⟩
+    ⟨p.1, p.2, iteration, stop, stop⟩
 
 def nmRun (val : Nat → Rat) (n : Nat) (tol : Rat) (maxIter stopAt : Nat) : NmSt :=
   iter (nmStep val n tol stopAt) maxIter (nmInit val n)
@@ -413,6 +416,33 @@ def nmResult (orig : Bool) (s : NmSt) : Core :=
   match pick with
   | some b => ⟨b.fit, b.idx, s.evals⟩
   | none => ⟨0, 0, s.evals⟩
+
+/-! ### What each solver returns, as a function of the user's objective values `f k`
+(`f k` = user's objective at the k-th evaluated point), the coins and the limits -/
+
+def annealSolve (m : Bool) (f : Nat → Rat) (coin : Nat → Bool) (iters : Nat) : Outcome :=
+  (annealRun (internal m f) coin iters).core.outcome m
+def tabuSolve (m : Bool) (f : Nat → Rat) (cooldown maxNoImprove stopAt : Nat) (cands : List (List Nat)) :
+    Outcome :=
+  (tabuRun (internal m f) cooldown maxNoImprove stopAt cands).core.outcome m
+/-- `orig = true`: the rule as written in the unchanged tree. -/
+def lnsSolve (orig : Bool) (m : Bool) (f : Nat → Rat) (coin : Nat → Bool) (acc : Accept)
+    (maxIter maxNoImprove stopAt : Nat) : Outcome :=
+  (lnsRun orig (internal m f) coin acc maxIter maxNoImprove stopAt).core.outcome m
+def alnsSolve (m : Bool) (f : Nat → Rat) (coin : Nat → Bool) (acc : Accept)
+    (maxIter maxNoImprove stopAt : Nat) : Outcome :=
+  (alnsRun (internal m f) coin acc maxIter maxNoImprove stopAt).core.outcome m
+def evolveSolve (m : Bool) (f : Nat → Rat) (popSize eliteSize gens : Nat) : Outcome :=
+  (evoRun (internal m f) popSize eliteSize gens).core.outcome m
+def deSolve (m : Bool) (f : Nat → Rat) (popSize gens : Nat) : Outcome :=
+  (deRun (internal m f) popSize gens).core.outcome m
+def psoSolve (m : Bool) (f : Nat → Rat) (nParticles iters : Nat) : Outcome :=
+  (psoRun (internal m f) nParticles iters).core.outcome m
+def bayesSolve (m : Bool) (f : Nat → Rat) (nInitial iters : Nat) : Outcome :=
+  (bayesRun (internal m f) nInitial iters).outcome m
+/-- `orig = true`: the `on_progress` exit as written in the unchanged tree. -/
+def nmSolve (orig : Bool) (m : Bool) (f : Nat → Rat) (n : Nat) (tol : Rat) (maxIter stopAt : Nat) : Outcome :=
+  (nmResult orig (nmRun (internal m f) n tol maxIter stopAt)).outcome m
 
 /-! ### Bounds (differential_evolution / particle_swarm / bayesian_opt: `clip`) -/
 
